@@ -15,6 +15,9 @@ type Clause struct {
 	InitUses []string // extra assumptions for establishing a loop invariant
 	E        Expr
 	Src      string
+	Maintained bool // maintains [l] e: postcondition that is also an invariant of every loop of the function
+	Stable    bool // requires stable [l] e: a fact no other goroutine can invalidate; also checked where the function is spawned with `go`
+	Invariant bool // requires invariant [l] e: an object invariant, assumed on entry and NOT checked at call sites (listed as assumption)
 }
 
 type LoopSpec struct {
@@ -42,6 +45,7 @@ type FuncContract struct {
 	Ensures   []Clause
 	Loops     map[int]*LoopSpec
 	Asserts   []AssertSpec
+	FsPaths   []Clause // fspath [l] e(path): must hold for every path handed to package os in this function
 	Modifies  []string // explicit (interface / trusted contracts)
 	Trusted   bool     // body not verified, contract assumed
 	NilRecvOK bool
@@ -49,6 +53,7 @@ type FuncContract struct {
 	IsCB      bool // callback contract
 	Pure      bool
 	Line      int
+	Patterns  []string // group contract (`funcs pat...`): clauses apply to every function whose key matches
 }
 
 type PredDef struct {
@@ -75,12 +80,13 @@ type ContractFile struct {
 	Axioms []Clause
 	Models map[string][]ModelField // type name -> ghost fields
 	Lemmas []Clause
+	Groups []*FuncContract // `funcs` blocks
 }
 
 var reLabel = regexp.MustCompile(`^\[([A-Za-z0-9_.\-]+)\](\{[A-Z0-9, ]+\})?\s*`)
 
-var clauseKW = map[string]bool{"func": true, "iface": true, "callback": true, "pred": true, "ghost": true, "axiom": true, "lemma": true, "model": true,
-	"props": true, "requires": true, "ensures": true, "loop": true, "assert": true, "modifies": true, "trusted": true, "nilrecv": true, "pure": true, "package": true}
+var clauseKW = map[string]bool{"func": true, "funcs": true, "iface": true, "callback": true, "pred": true, "ghost": true, "axiom": true, "lemma": true, "model": true,
+	"props": true, "requires": true, "ensures": true, "maintains": true, "fspath": true, "loop": true, "assert": true, "modifies": true, "trusted": true, "nilrecv": true, "pure": true, "package": true}
 
 func parseContractFile(path, pkg string) (*ContractFile, error) {
 	b, err := os.ReadFile(path)
@@ -147,6 +153,17 @@ func parseContractFile(path, pkg string) (*ContractFile, error) {
 			}
 			cf.Funcs[fc.Key] = fc
 			cur = fc
+		case "funcs":
+			// funcs pat1 pat2 !excluded ...: the following requires/ensures apply to every function of the
+			// package whose key matches one of the glob patterns (and none of the excluded ones);
+			// the receiver is called recv, results are result0, result1, ...
+			g := &FuncContract{Pkg: pkg, Key: "funcs@" + strconv.Itoa(l.line), RecvName: "recv", Loops: map[int]*LoopSpec{}, Line: l.line,
+				Patterns: strings.Fields(rest)}
+			if len(g.Patterns) == 0 {
+				return nil, fail(fmt.Errorf("funcs without patterns"))
+			}
+			cf.Groups = append(cf.Groups, g)
+			cur = g
 		case "props":
 			if cur == nil {
 				return nil, fail(fmt.Errorf("props outside func"))
@@ -164,7 +181,16 @@ func parseContractFile(path, pkg string) (*ContractFile, error) {
 					cur.Modifies = append(cur.Modifies, m)
 				}
 			}
-		case "requires", "ensures":
+		case "fspath":
+			if cur == nil {
+				return nil, fail(fmt.Errorf("fspath outside func"))
+			}
+			cl, err := parseClause(rest)
+			if err != nil {
+				return nil, fail(err)
+			}
+			cur.FsPaths = append(cur.FsPaths, cl)
+		case "requires", "ensures", "maintains":
 			if cur == nil {
 				return nil, fail(fmt.Errorf("%s outside func", kw))
 			}
@@ -172,6 +198,7 @@ func parseContractFile(path, pkg string) (*ContractFile, error) {
 			if err != nil {
 				return nil, fail(err)
 			}
+			cl.Maintained = kw == "maintains"
 			if kw == "requires" {
 				cur.Requires = append(cur.Requires, cl)
 			} else {
@@ -336,6 +363,14 @@ func parseContractFile(path, pkg string) (*ContractFile, error) {
 func parseClause(s string) (Clause, error) {
 	cl := Clause{}
 	s = strings.TrimSpace(s)
+	if strings.HasPrefix(s, "invariant ") {
+		cl.Invariant = true
+		s = strings.TrimSpace(s[len("invariant "):])
+	}
+	if strings.HasPrefix(s, "stable ") {
+		cl.Stable = true
+		s = strings.TrimSpace(s[len("stable "):])
+	}
 	if m := reLabel.FindStringSubmatch(s); m != nil {
 		cl.Label = m[1]
 		if m[2] != "" {
@@ -510,3 +545,24 @@ func matchParen(s string, i int) int {
 	}
 	return -1
 }
+
+
+// groupMatches reports whether a function key is selected by the patterns of a `funcs` block.
+func groupMatches(patterns []string, key string) bool {
+	hit := false
+	for _, p := range patterns {
+		neg := strings.HasPrefix(p, "!")
+		p = strings.TrimPrefix(p, "!")
+		re := "^" + strings.ReplaceAll(regexp.QuoteMeta(p), `\*`, ".*") + "$"
+		ok, _ := regexp.MatchString(re, key)
+		if ok && neg {
+			return false
+		}
+		if ok {
+			hit = true
+		}
+	}
+	return hit
+}
+
+var reRecvWord = regexp.MustCompile(`\brecv\b`)
